@@ -5,6 +5,8 @@ package getoptions
 
 import (
 	"bytes"
+	"context"
+	"errors"
 	"fmt"
 	"os"
 	"reflect"
@@ -243,5 +245,33 @@ func TestD15CompletionHintDeterministic(t *testing.T) {
 	}
 	if strings.Contains(first, "yyy") || strings.Contains(first, "<file>") {
 		t.Fatalf("D15: another option's values or argument name are offered: %q", first)
+	}
+}
+
+// D17 (C17): the help command found its topic by the display name of a command (Self), while
+// completion offers - and the command line selects a command by - the name it was declared with.
+func TestD17HelpTopicIsTheDeclaredName(t *testing.T) {
+	build := func() *GetOpt {
+		opt := New()
+		opt.Self("prog", "")
+		c := opt.NewCommand("x", "cmd x")
+		c.Self("disp-x", "cmd x")
+		c.SetCommandFn(func(ctx context.Context, o *GetOpt, a []string) error { return nil })
+		opt.HelpCommand("help")
+		return opt
+	}
+	opt := build()
+	buf := new(bytes.Buffer)
+	Writer = buf
+	rem, err := opt.Parse([]string{"help", "x"})
+	if err != nil {
+		t.Fatalf("Parse: %v", err)
+	}
+	err = opt.Dispatch(context.Background(), rem)
+	if !errors.Is(err, ErrorHelpCalled) {
+		t.Fatalf("help x: got error %v, want ErrorHelpCalled", err)
+	}
+	if !strings.Contains(buf.String(), "prog disp-x") {
+		t.Errorf("help x did not print the help of the command declared as x:\n%s", buf.String())
 	}
 }
